@@ -86,19 +86,21 @@ type queryCase struct {
 }
 
 func (s *Sim) queryCases() []queryCase {
-	prefix := rng_pick(s, []string{"k%", "k1%", "%2", "e1%", "%"})
+	prefix := rng_pick(s, []string{"k%", "k1%", "%2", "e1%", "%", "K%", "E1%"})
 	lim := 1 + s.R.Intn(3)
 	nmin := float64(s.R.Intn(4))
 	tval := rng_pick(s, []string{"a", "b", "c", "v"})
 	smin := float64(1 + s.R.Intn(3))
 	like := func(id string) bool {
+		// (SQLite's LIKE ignores the case of ASCII letters)
+		id, pat := strings.ToLower(id), strings.ToLower(prefix)
 		switch {
-		case prefix == "%":
+		case pat == "%":
 			return true
-		case strings.HasSuffix(prefix, "%"):
-			return strings.HasPrefix(id, strings.TrimSuffix(prefix, "%"))
+		case strings.HasSuffix(pat, "%"):
+			return strings.HasPrefix(id, strings.TrimSuffix(pat, "%"))
 		default:
-			return strings.HasSuffix(id, strings.TrimPrefix(prefix, "%"))
+			return strings.HasSuffix(id, strings.TrimPrefix(pat, "%"))
 		}
 	}
 	idRow := func(d liveDoc) QRow { return QRow{"id": canon(d.id)} }
@@ -170,7 +172,7 @@ newline" FROM $_keyspace ORDER BY id`,
 				}
 				return out
 			}},
-		{name: "body-number", ordered: true, jsonOnly: true, args: map[string]any{"n": nmin},
+		{name: "body-number", ordered: true, jsonOnly: true, args: map[string]any{"n": goNumber(nmin, s.nsteps)},
 			stmt: `SELECT json_quote(id) AS id, json_quote(body->'n') AS n FROM $_keyspace WHERE body->>'n' >= $n ORDER BY id`,
 			want: func(docs []liveDoc) []QRow {
 				var out []QRow
@@ -251,7 +253,7 @@ newline" FROM $_keyspace ORDER BY id`,
 				}
 				return out
 			}},
-		{name: "xattr-number", ordered: true, args: map[string]any{"s": smin},
+		{name: "xattr-number", ordered: true, args: map[string]any{"s": goNumber(smin, s.nsteps+1)},
 			stmt: `SELECT json_quote(id) AS id FROM $_keyspace WHERE xattrs->'_sync'->>'seq' >= $s ORDER BY id`,
 			want: func(docs []liveDoc) []QRow {
 				var out []QRow
@@ -405,4 +407,22 @@ func (s *Sim) QueryRows(b, c int, stmt string, args map[string]any, useBytes boo
 		out[i] = qrowKey(r)
 	}
 	return out, ""
+}
+
+// goNumber hands a whole number to a query as one of the Go types a caller may hold it in: all of them are numbers
+// to the statement, not text.
+func goNumber(f float64, pick int) any {
+	switch pick % 6 {
+	case 0:
+		return int(f)
+	case 1:
+		return int64(f)
+	case 2:
+		return uint32(f)
+	case 3:
+		return int32(f)
+	case 4:
+		return uint64(f)
+	}
+	return f
 }
